@@ -2,6 +2,8 @@
   C01 — composition: for a program whose real TEAL `P` passed the certificate check against the
   graph of the (renamed) source tree `e`, the real TEAL computes what the tree denotes, on every
   context, every initial state and every run length.
+  The statement about the tree BEFORE the renaming of variables to slots (the one the harness renders)
+  is `Proofs.CompileOriginal.compile_correct_original` (with `Proofs/Rename.lean`).
 -/
 import PyTealV.Proofs.Sim
 import PyTealV.Proofs.Shape
